@@ -47,7 +47,7 @@ class H(dbmc.Harness):
         st = {n: i.state for n, i in w.icm.instances.items()}
         existing = {r['attempt_id'] for r in w.table('attempts')}
         for inst in ('i1', 'i2'):
-            atts = ATTS if inst == 'i1' else ATTS[:1]
+            atts = ATTS if inst == 'i1' else ('p1',)  # attempt ids are unique to one scheduling on one instance
             if st[inst] == 'active':
                 for a in atts:
                     out.append(('schedule', 1, a, inst))
